@@ -203,11 +203,12 @@ def oracleFor (prop : String) (c : Cfg) (t : Spec.Trace) : Option Bool :=
   | "C06" => some (Spec.oracleC06 (kindOf c) c.tti t)
   | "C07" => some (Spec.oracleC07 (kindOf c) t)
   | "C16" => some (Spec.oracleC16 (kindOf c) c.ttl c.tti t)
-  | "C04" => some (Spec.oracleC04 (kindOf c) c.cap t)
+  | "C04" => some (Spec.oracleC04 (kindOf c) c.cap (Spec.noFreq t))
   | "C13" => some (Spec.oracleC13 (kindOf c) c.cap c.ttl c.tti c.params.weigh t)
   | "C12" => some (Spec.oracleC12 (kindOf c) c.cap c.ttl c.tti c.params.weigh Gen.UNSYNC_EVICTION_BATCH_SIZE t)
   | "C11" => some (Spec.oracleC11 t)
-  | "C03" => some (Spec.oracleC03 (kindOf c) c.cap c.ttl c.tti c.params.weigh t)
+  | "C14" => some (Spec.onlyGetC14 (Spec.noFreq t))
+  | "C03" => some (Spec.oracleC03 (kindOf c) c.cap c.ttl c.tti c.params.weigh (Spec.noFreq t))
   | _ => none
 
 structure Case where
